@@ -92,6 +92,8 @@ def run_unit(unit, tier='quick'):
         j = {}
     vr = j.get('verification-results', {})
     errs = parse_errors(p.stderr)
+    if re.search(r"Internal Verus Error|thread 'rustc' .*panicked|error: internal compiler error", p.stderr):
+        raise Undecided('verus crashed on unit %s: %s' % (unit, (re.search(r'Internal Verus Error[^\n]*', p.stderr) or re.search(r'panicked[^\n]*', p.stderr)).group(0)[:300]))
     if 'verified' not in vr:
         # rustc-level failure of the assembled file: renamed locals, lost splice anchors, dialect limits
         first = errs[0]['text'].split('\n')[0:6] if errs else [p.stderr[-400:]]
@@ -162,6 +164,11 @@ def run_unit(unit, tier='quick'):
     n_fn = sum(1 for r in asm.regions if r[3] in ('fn', 'lemma'))
     if n_fn == 0:
         undecided.append('verus %s: no obligations generated' % unit)
+    # cross-check against Verus' own count: it must have verified at least the items reported as discharged here
+    n_pass = sum(1 for o in obligations if o['status'] == 'pass' and not o.get('witness_for'))
+    if vr.get('verified', 0) < n_pass:
+        undecided.append('verus %s: verifier reports %d verified items but %d obligations would be counted as discharged'
+                         % (unit, vr.get('verified', 0), n_pass))
     for o in obligations[:3]:
         samples.append(dict(obligation=o['id'], status=o['status'], what=o['detail'][:160]))
     for label, clause in list(U.get('clauses', {}).items())[:3]:
